@@ -561,8 +561,11 @@ def ragged_view_kinds(t, fields):
 # ====================================================================== operations
 CAT_OPS = [('cat', 'self'), ('cat', 'root_r'), ('cat', 'root_l'), ('cat', 'view'), ('cat', 'rev'), ('cat', 'empty_r'), ('cat', 'empty_l')]
 RT_OPS = [('rt', 'tuples'), ('rt', 'dict'), ('rt', 'pandas')]
-ADD_OPS = [('add', 'int'), ('add', 'str'), ('add', 'dna')]
-ADD_FIELDS = {'int': ('extra_i', 'int'), 'str': ('extra_s', 'str'), 'dna': ('extra_d', 'dna')}
+ADD_OPS = [('add', 'int'), ('add', 'str'), ('add', 'dna'), ('add', 'same_i'), ('add', 'same_s')]
+ADD_FIELDS = {'int': ('extra_i', 'int'), 'str': ('extra_s', 'str'), 'dna': ('extra_d', 'dna'),
+              # the same new column name with two different types, on the same table classes, in one process: classes
+              # built lazily by add_fields/extend must not be shared between differently typed calls
+              'same_i': ('extra_x', 'int'), 'same_s': ('extra_x', 'str')}
 CONSTRUCTING = ('replace', 'add', 'rt')
 ARRAY_REPLACE_KINDS = ('str', 'id', 'int', 'intlist')   # kinds whose typed array differs materially from a plain list
 
@@ -835,7 +838,7 @@ def transition(t, root, op, model, isolate=True):
             return {'status': 'unsupported', 'calls': 1}
         if opkind == 'astype':
             return {'status': 'notjudged', 'calls': 1, 'why': 'astype raises ' + type(e).__name__}
-        if opkind == 'add' and rows0 and op[1] in ('int', 'str'):
+        if opkind == 'add' and rows0 and op[1] in ('int', 'str', 'same_i', 'same_s'):
             return {'status': 'allowed-raise', 'calls': 1}
         feats.update(_exc_features(e))
         feats['kinds'] = culprit('?')
